@@ -21,8 +21,8 @@ pub const WS_BYTES: [u8; 32] = [
 ];
 
 const POSITIONS: [&str; 5] = ["unit-start", "after-header", "before-comma", "after-comma", "before-end"];
-const EXEC_FAULTS: [Fault; 7] =
-    [Fault::WrongKind, Fault::TooFew, Fault::TooMany, Fault::WrongType, Fault::OutOfRange, Fault::NotBool, Fault::Handler];
+const EXEC_FAULTS: [Fault; 8] =
+    [Fault::WrongKind, Fault::TooFew, Fault::TooMany, Fault::WrongType, Fault::OutOfRange, Fault::NotBool, Fault::Handler, Fault::InnerNode];
 
 #[derive(Default)]
 struct Acc {
